@@ -97,6 +97,10 @@ pub fn plan_open(path: &str, o: OpenOutcome) {
     with(|w| line(w, path).plan.push_back(o))
 }
 
+pub fn clear_plan(path: &str) {
+    with(|w| line(w, path).plan.clear());
+}
+
 pub fn is_open(path: &str) -> bool {
     with(|w| line(w, path).is_open)
 }
